@@ -1114,6 +1114,10 @@ func (ex *Exec) enterLoop(f *frame, st *State, h *ssa.BasicBlock, li *loopInfo, 
 				}
 			}
 		}
+		// the address handed to a call inside the loop (a decoder filling the variable, say) is a write too
+		if !stored && addrPassedToCallIn(pa.alloc, li.body, 0) {
+			stored = true
+		}
 		if stored {
 			continue
 		}
@@ -1185,4 +1189,52 @@ func (ex *Exec) doPanic(f *frame, st *State, p *ssa.Panic) {
 		return
 	}
 	ex.oblige(f, st, "panic", detail, "", p.Pos(), tFalse, "explicit panic reachable")
+}
+
+// addrPassedToCallIn: is v (the address of a local cell, or something derived from it: a field address, an interface
+// holding it) an argument of a call / go / defer instruction in one of the given blocks?
+func addrPassedToCallIn(v ssa.Value, body map[*ssa.BasicBlock]bool, depth int) bool {
+	if depth > 4 {
+		return true
+	}
+	refs := v.Referrers()
+	if refs == nil {
+		return false
+	}
+	for _, ins := range *refs {
+		switch u := ins.(type) {
+		case ssa.CallInstruction:
+			if body[u.Block()] {
+				for _, a := range u.Common().Args {
+					if a == v {
+						return true
+					}
+				}
+				if u.Common().Value == v {
+					return true
+				}
+			}
+		case *ssa.MakeInterface:
+			if addrPassedToCallIn(u, body, depth+1) {
+				return true
+			}
+		case *ssa.FieldAddr:
+			if addrPassedToCallIn(u, body, depth+1) {
+				return true
+			}
+		case *ssa.IndexAddr:
+			if addrPassedToCallIn(u, body, depth+1) {
+				return true
+			}
+		case *ssa.ChangeType:
+			if addrPassedToCallIn(u, body, depth+1) {
+				return true
+			}
+		case *ssa.Slice:
+			if addrPassedToCallIn(u, body, depth+1) {
+				return true
+			}
+		}
+	}
+	return false
 }
